@@ -8,7 +8,7 @@ import numpy as np
 from .. import contracts, gen, ref
 
 DECIDING = ["contract:permute_systems", "O2:product-form", "O3:inverse-undoes", "O4:row-only=P.X", "contract:swap",
-            "contract:permutation_operator", "O5:swap_operator", "O6:sparse=dense", "O1:omitted-dim", "H1:repeat-call"]
+            "contract:permutation_operator", "O5:swap_operator", "O6:sparse=dense", "O1:omitted-dim", "H1:repeat-call", "O1:many-subsystems"]
 RULE = ("cases = every permutation of n<=4 subsystems (random ones for n=5,6) x random independent row/column local "
         "dimensions in 1..4 x flags x dtype x memory layout x dim calling form, entries are unique ids; a signature is "
         "(monitor, kind, n, flags, rectangular?) and is non-trivial when the permutation is not the identity")
@@ -45,6 +45,8 @@ def cases(tier):
         out.append(("nodim", d, n))
     for r in range(40 if tier == "quick" else 4000):
         out.append(("repeat", r))
+    for r in range(48 if tier == "quick" else 4000):
+        out.append(("many", r))
     if tier == "thorough":
         out.append(("suite", 0))
     return out
@@ -82,6 +84,34 @@ def run(ctx, spec, rng):
 def _perm_of(spec, rng):
     n = spec[1]
     return list(spec[2]) if spec[2] is not None else [int(v) for v in rng.permutation(n)]
+
+
+def _run_many(ctx, spec, rng):
+    """Nine to thirteen subsystems (the operators stay small because most local dimensions are 1 or 2)."""
+    from toqito.perms import permute_systems, swap
+
+    d = gen.many_dims(rng, cap=256 if ctx.tier == "quick" else 1024)
+    n = len(d)
+    big = int(np.prod(d))
+    perm = [int(v) for v in rng.permutation(n)]
+    inv = bool(rng.integers(0, 2))
+    vec = rng.random() < 0.3
+    x = gen.unique_ids((big,) if vec else (big, big), "ifc"[int(rng.integers(0, 3))])
+    res = ctx.call(permute_systems, x, perm if rng.random() < 0.5 else np.array(perm), list(d) if rng.random() < 0.5 else np.array(d), False, inv)
+    if res is not ctx_failed():
+        want = ref.permute_vec(x, perm, d, inv) if vec else ref.permute(x, perm, d, d, inv)
+        ctx.check("O1:many-subsystems", np.shape(res) == want.shape and np.array_equal(res, want), sig=("permute", n, vec, inv), nt=True,
+                  mech="permute_systems:many-subsystems", detail={"d": d, "perm": perm, "inv": inv, "vector": vec})
+    i, j = (int(v) for v in rng.permutation(n)[:2])
+    y = gen.unique_ids((big, big), "ifc"[int(rng.integers(0, 3))])
+    res = ctx.call(swap, y, [i + 1, j + 1], list(d))
+    if res is not ctx_failed():
+        p2 = list(range(n))
+        p2[i], p2[j] = p2[j], p2[i]
+        want = ref.permute(y, p2, d, d)
+        ctx.check("O1:many-subsystems", np.shape(res) == want.shape and np.array_equal(res, want), sig=("swap", n, d[i] != d[j]), nt=d[i] != d[j],
+                  mech="swap:many-subsystems", detail={"d": d, "sys": [i + 1, j + 1]})
+    ctx.sample("O1:many-subsystems", {"dims": d, "perm": perm})
 
 
 def _run_mat(ctx, spec, rng):
